@@ -801,6 +801,19 @@ func (c *CEnv) call(x *ast.CallExpr) CVal {
 		n := c.sub(map[string]CVal{id.Name: {S: bv, T: t}})
 		body := n.evalBool(arg(2))
 		return CVal{S: fmt.Sprintf("(forall ((%s %s)) %s)", bv, e.sortOf(t), body), T: boolT}
+	case "runesub", "runecount", "runeat":
+		// the string <-> []rune model: runesub(s, a, b) = string([]rune(s)[a:b]), runecount(s) = len([]rune(s)),
+		// runeat(s, i) = string([]rune(s)[i])
+		e.runeDecls()
+		sv := c.ev(arg(0))
+		switch name {
+		case "runecount":
+			return CVal{S: fmt.Sprintf("(go.runecount %s)", sv.S), T: intT}
+		case "runeat":
+			return CVal{S: fmt.Sprintf("(go.rune2str (select (go.runes %s) %s))", sv.S, c.toIdx(c.ev(arg(1))).S), T: types.Typ[types.String]}
+		}
+		a, b := c.toIdx(c.ev(arg(1))).S, c.toIdx(c.ev(arg(2))).S
+		return CVal{S: fmt.Sprintf("(go.runes2str (go.runes %s) %s (- %s %s))", sv.S, a, b, a), T: types.Typ[types.String]}
 	case "forallT", "existsT", "forallU":
 		// forallT(x, Type, P): x ranges over all values of the Go type (allocated in the current state);
 		// forallU: the same without the allocation bound (also objects allocated later; for entry
